@@ -479,7 +479,28 @@ def check_long_levels(case):
     return OK(n >= 8, f"long_levels_n{n}")
 
 
-CHECKS = {"history": check_history, "orders": check_orders, "long_levels": check_long_levels}
+def check_cli_count(case):
+    """The `count` command line prints the enumeration of the class, one length at a time, for
+    ever: the first n+1 numbers are compared with the model, for the 0-based and the 1-based
+    spelling of the basis and any separator."""
+    from ..lib import run_cli
+
+    basis, n, sep = [tuple(b) for b in case["basis"]], case["n"], case.get("sep", "_")
+    want = [len(ref.av(list(basis), k)) for k in range(n + 1)]
+    for off in (0, 1):
+        arg = sep.join("".join(str(v + off) for v in b) for b in basis)
+        Av.clear_cache()
+        out = run_cli(["count", arg], max_prints=n + 2)
+        head, _, rest = out.partition("\n")
+        got = [int(x) for x in rest.replace(",", " ").split()]
+        if got != want:
+            return BAD("cli_count", {"arg": arg, "got": got, "want": want, "header": head})
+        if "Enumerating" not in head:
+            return BAD("cli_count_header", {"arg": arg, "header": head})
+    return OK(n >= 4 and len(set(want)) > 2, "cli_count")
+
+
+CHECKS = {"history": check_history, "orders": check_orders, "long_levels": check_long_levels, "cli_count": check_cli_count}
 
 
 # ------------------------------------------------------------------ generators
@@ -688,7 +709,14 @@ def long_cases(draw, nmax):
     return {"basis": basis, "n": n, "order": order}
 
 
+@st.composite
+def cli_cases(draw):
+    basis = [list(p) for p in draw(st.lists(gen.perms(1, 5), min_size=1, max_size=3))]
+    return {"basis": basis, "n": draw(st.integers(3, 7)), "sep": draw(st.sampled_from(["_", ":", ",", " ", "-", "|"]))}
+
+
 def shard_long(acc, shard, nshards, n_cases, nmax):
+    engine.hyp_run(acc, "cli_count", check_cli_count, cli_cases(), 4 * n_cases, shard)
     # deterministic part: each single pattern of length 3 (Catalan classes), every level up to nmax+1
     import itertools
 
